@@ -320,6 +320,11 @@ class SymBlock:
         self.agg = None
         # positional variant: dict(seq=<id of the task's block stream>, lo, hi, cond) — aggregates stream positions lo..hi-1
         self.aggpos = None
+        # prefix/element provenance along one axis (scans): dict(axis, f, cond): the element(s) at local index l along
+        # `axis` aggregate the half-open interval f(l) == (lo, hi) of boundary terms of a root tiling; `cond` holds side
+        # conditions: z3 terms, or ("forall", bound, g) meaning g(k) for every 0 <= k < bound
+        self.pagg = None
+        self.contr = None  # contraction provenance (matmul), see _NXP.matmul
         # memory: a view shares the buffer of its base; anything else is a fresh allocation (reported to the live-memory
         # meter of the path, if one is switched on)
         self.base = view_of.base if view_of is not None else self
@@ -417,7 +422,15 @@ class SymBlock:
                         out.append(a)
                 return src(tuple(out))
 
-        return SymBlock(new_shape, self.dtype, origin, self.label, view_of=self)
+        out = SymBlock(new_shape, self.dtype, origin, self.label, view_of=self)
+        if getattr(self, "contr", None) is not None and all(k_[0] in ("new",) or (k_[0] == "slice" and isinstance(k_[1], int) and k_[1] == 0) for k_ in kinds) \
+                and [n_ for n_, k_ in zip(new_shape, kinds) if k_[0] == "slice"] == list(self.shape):
+            out.contr = self.contr  # only new unit axes were inserted: same elements
+        pg = self.pagg
+        if pg is not None and all(k_[0] == "slice" for k_ in kinds) and len(kinds) == self.ndim:
+            off = kinds[pg["axis"]][1]
+            out.pagg = dict(axis=pg["axis"], f=(lambda l, f=pg["f"], off=off: f(l + off)), cond=list(pg["cond"]))
+        return out
 
     def _pyvc_setitem(self, interp, idx, val):
         idx = self._norm_index(idx)
@@ -485,6 +498,7 @@ def concretize(interp, v, cap, why):
 class _NXP:
     """Assumed shape / index-map contracts of the NumPy kernels called by cubed's block functions."""
 
+    newaxis = None
     int8 = Dtype("int8", 1)
     int16, int32, int64 = Dtype("int16", 2), Dtype("int32", 4), Dtype("int64", 8)
     uint8, uint16, uint32, uint64 = Dtype("uint8", 1), Dtype("uint16", 2), Dtype("uint32", 4), Dtype("uint64", 8)
@@ -654,6 +668,18 @@ class _NXP:
             for g1, g2 in zip(pos, pos[1:]):
                 cond.append(tz(g1["hi"]) == tz(g2["lo"]))  # the pieces are consecutive runs of the stream
             out.aggpos = dict(seq=pos[0]["seq"], lo=pos[0]["lo"], hi=pos[-1]["hi"], cond=cond)
+        pgs = [getattr(a, "pagg", None) for a in arrays]
+        if all(g is not None and g["axis"] == ax for g in pgs):
+            lens = [a.shape[ax] for a in arrays]
+
+            def f(l, pgs=pgs, lens=lens):
+                off = 0
+                for j, (g, ln) in enumerate(zip(pgs, lens)):
+                    if j == len(pgs) - 1 or interp.truth(l < off + ln):
+                        return g["f"](l - off)
+                    off = off + ln
+
+            out.pagg = dict(axis=ax, f=f, cond=[t for g in pgs for t in g["cond"]])
         return out
 
     def flip(self, x, axis=None):
@@ -677,6 +703,29 @@ class _NXP:
             idx = tuple(j if i == ax else slice(None) for i in range(x.ndim))
             out.append(x._pyvc_getitem(self._interp(), idx))
         return tuple(out)
+
+    def matmul(self, a, b):
+        """numpy.matmul of (…, m, k) and (…, k, n) blocks: (…, m, n); element (i, j) contracts a[i, :] with b[:, j].
+        Contraction provenance `contr`: rows/cols/k are the source intervals of a's rows, b's columns and the common
+        contracted interval — a's columns and b's rows must be the *same* interval of the contracted axis (cond)."""
+        self._note("matmul")
+        interp = self._interp()
+        if a.ndim < 2 or b.ndim < 2 or a.ndim != b.ndim:
+            raise Unsupported("matmul kernel contract: operands of rank < 2 or different ranks")
+        if interp.truth(a.shape[-1] != b.shape[-2]):
+            raise PyExc(ValueError, ("matmul: Input operand 1 has a mismatch in its core dimension 0",))
+        for x_, y_ in zip(a.shape[:-2], b.shape[:-2]):
+            if interp.truth(x_ != y_):
+                raise Unsupported("matmul kernel contract: broadcasting batch dimensions")
+        out = SymBlock(tuple(a.shape[:-2]) + (a.shape[-2], b.shape[-1]), a.dtype, None, "matmul")
+        ga, gb_ = getattr(a, "agg", None), getattr(b, "agg", None)
+        if ga is not None and gb_ is not None:
+            ka, kb = ga["box"][-1], gb_["box"][-2]
+            out.contr = dict(a=ga["src"], b=gb_["src"], rows=ga["box"][-2], cols=gb_["box"][-1], k=ka,
+                             batch=tuple(ga["box"][:-2]),
+                             cond=list(ga["cond"]) + list(gb_["cond"]) + [z3.And(tz(ka[0]) == tz(kb[0]), tz(ka[1]) == tz(kb[1]))]
+                             + [z3.And(tz(p[0]) == tz(q[0]), tz(p[1]) == tz(q[1])) for p, q in zip(ga["box"][:-2], gb_["box"][:-2])])
+        return out
 
     def astype(self, x, dtype, **k):
         self._note("astype")
